@@ -185,6 +185,7 @@ type Mailbox struct {
 	Mails []Mail
 	Yield func()
 	Fail  bool
+	B     *Backend // the sender counts as a backend call ("MailSend") that a fault plan can fail
 }
 
 func (m *Mailbox) Send(ctx context.Context, e authboss.Email) error {
@@ -223,6 +224,9 @@ func (m *Mailbox) Send(ctx context.Context, e authboss.Email) error {
 	m.mu.Unlock()
 	if fail {
 		return ErrInjected
+	}
+	if m.B != nil {
+		return m.B.Enter("MailSend", nil)
 	}
 	return nil
 }
